@@ -611,3 +611,17 @@ M('C10', 'converge-tangent-signed-distance', 'src/airfoil/edges.rs', "          
 M('C20', 'extend-xs-early-return', CFM, "    let mut uv = Mat::zeros(n_vert, 2);\n\n    // Copy the boundary vertex x values", "    let mut uv = Mat::zeros(n_vert, 2);\n\n    if i_inner.is_empty() {\n        return uv;\n    }\n\n    // Copy the boundary vertex x values", 'calc_extend_uv_xs:every-vertex')
 M('C20', 'extend-xs-wrong-column', CFM, "    for (&i, &v) in i_inner.iter().zip(uv_inner.col_as_slice(0)) {\n        uv[(i as usize, 0)] = v;", "    for (&i, &v) in i_inner.iter().zip(uv_inner.col_as_slice(0)) {\n        uv[(i as usize, 1)] = v;", 'calc_extend_uv_xs:every-vertex')
 M('C18', 'directed-angle-wraps-zero', 'src/geom2/angles2.rs', "    if a < 0.0 {\n        a + 2.0 * PI", "    if a <= 0.0 {\n        a + 2.0 * PI", 'directed_angle:zero-stays-zero')
+M('C09', 'gaussian-weights-nan-polarity', C2F, "                if d > sigma {\n                    weights[i] = 0.0;\n                } else {\n                    weights[i] = 1.0;\n                }", "                weights[i] = if d <= sigma { 1.0 } else { 0.0 };", 'compute_weights_mut:outlier-test')
+M('C09', 'neutral-gaussian-weights-expr', C2F, "                if d > sigma {\n                    weights[i] = 0.0;\n                } else {\n                    weights[i] = 1.0;\n                }", "                weights[i] = if d > sigma { 0.0 } else { 1.0 };", '', kind='neutral')
+M('C14', 'facing-dot-vs-cos', FILF, "                nv.angle(normal) < angle", "                nv.dot(normal) > angle.cos()", 'facing:criterion')
+M('C14', 'neutral-facing-is-some-and', FILF, """            let n = m.shape.triangle(i as u32).normal();
+            if let Some(nv) = n {
+                nv.angle(normal) < angle
+            } else {
+                false
+            }""", """            m.shape
+                .triangle(i as u32)
+                .normal()
+                .is_some_and(|nv| nv.angle(normal) < angle)""", '', kind='neutral')
+M('C20', 'boundary-loops-drop-triangles', EDF, "        working.reverse();\n        all_loops.push(working);", "        if working.len() > 3 {\n            working.reverse();\n            all_loops.push(working);\n        }", 'boundary_loops:every-walk-recorded')
+M('C12', 'boundary-loops-drop-triangles', EDF, "        working.reverse();\n        all_loops.push(working);", "        if working.len() > 3 {\n            working.reverse();\n            all_loops.push(working);\n        }", 'boundary_loops:every-walk-recorded')
